@@ -472,6 +472,19 @@ fn build_script(rng: &mut Rng, thorough: bool, out: &mut Out) -> Vec<Op> {
         }
         v
     };
+    // (F2) what is drawn next to the input line depends on the text being typed (command help):
+    //      every prefix of every command form in lower, upper and mixed case, drawn after each key
+    for form in ["set FC = 0x1F", "SET IRG = 5", "Set J1", "sEt UIO3", "SET TEMP = 2.5", "unset J2", "UNSET UIO1", "load p1.asm",
+                 "LOAD p2.asm", "Load x", "show memory", "SHOW REGISTER", "next 5", "NEXT 12", "FC = 7", "fd = 0b101", "quit", "EXIT",
+                 "Q", "sET  i1 = 1", "UnSeT ", "LoAd ", "sHoW ", "nExT ", "?", "help", "HELP"] {
+        ops.push(op("tnew".into()));
+        for (i, c) in form.chars().enumerate() {
+            ops.push(op(key_char(c, "-")));
+            let (w, h) = match i % 4 { 0 => (76, 28), 1 => (120, 40), 2 => (200, 60), _ => (77 + (i as u16 * 7) % 60, 28 + (i as u16 * 3) % 30) };
+            ops.push(op(format!("draw {} {}", w, h)));
+        }
+        ops.push(op("tdump".into()));
+    }
     let mut n_sizes = 0u64;
     for st in &states {
         ops.push(op("tnew".into()));
